@@ -168,7 +168,7 @@ Registrar reg(Prop{
     "Cases: node id 1..127; dictionary with all 12 writable integer kinds {8,16,32 bit} x {direct, referenced} x {plain, node-id relative} and domains of 1..2000 (4000 in thorough) bytes, sizes boundary-biased around 4,7,8,14,889,890,896,1778; "
     "1..3 transfers by a reference conforming client: expedited / segmented / block, size announced or not, payload any length the object can hold (domains: 1..size), random fill of the last segment, up to 3 (6) segments lost in transit inside block sub-blocks followed by go-back-N retransmission, "
     "in build n2 interleaved with traffic on the second server addressing other objects; 1 in 9 integer transfers use a wrong length and must then be refused without effect. "
-    "Mode after-server-abort: a segmented upload which the server ended with a toggle error precedes the download under test. Oracle: every response checked against CiA 301 (command, toggle, ackseq, block size 1..127, multiplexer), then a snapshot of ALL object storage must equal the snapshot before with exactly the payload applied. "
+    "Mode after-server-abort: a segmented upload which the server ended with a toggle error precedes the download under test. Mode large-domain: one segmented or block download of up to 5500 bytes into a domain of 65536..68535 bytes, its end placed around the point where 65536 bytes of the domain remain. Oracle: every response checked against CiA 301 (command, toggle, ackseq, block size 1..127, multiplexer), then a snapshot of ALL object storage must equal the snapshot before with exactly the payload applied. "
     "Non-trivial: a confirmed transfer of >= 2 request/response round trips, or a retransmission, or interleaved second-server traffic. Distinct = distinct decoded choice sequence.",
     {Mode{"random", one_case, false, 1100000, 22000000, 0, 0, 200, 400},
      Mode{"after-server-abort", prefix_case, false, 400000, 8000000, 0, 0, 200, 400},
